@@ -138,4 +138,113 @@ example : Style.wf ⟨indexColor 200, rgbColor 1 2 3, indexColor 7, 3, 254⟩ :=
   ⟨Or.inr (Or.inl ⟨200, by decide, rfl⟩), Or.inr (Or.inr ⟨1, 2, 3, by decide, by decide, by decide, rfl⟩),
    Or.inr (Or.inl ⟨7, by decide, rfl⟩), by decide, by decide⟩
 
+/-! ### StyledString.Encode / NewStyledString, the renderer, resets -/
+
+theorem ssCfg_covers : Covers ssCfg := covers_iff _ (by decide)
+
+/-- **producers_range (StyledString.Encode)**: colon forms only. -/
+theorem producers_range_ssEncode (p n : Style) (hn : n.ulStyle ≤ 5) :
+    ∀ x ∈ ssDelta p n, emittable x = true := ssDelta_range p n hn
+
+/-- **producers_range (render)**, for every capability setting. -/
+theorem producers_range_render (rgb su legacy : Bool) (p n : Style) (hn : n.ulStyle ≤ 5) :
+    ∀ x ∈ renderDelta rgb su legacy p n, emittableLegacy x = true := renderDelta_range rgb su legacy p n hn
+
+/-- **consumer_refines_spec (NewStyledString)**, default style = zero style, on the colon-form range
+    (everything `StyledString.Encode` writes, and everything `EncodeCells` / `render` write without the
+    legacy quirk). Holds since the `fix:` for F48 (case "59"). -/
+theorem consumer_refines_spec_ssParse (s : Style) (q : Seq) (hq : emittable q = true) :
+    ∃ s', ssSeq {} s q = .ok s' ∧ shown s' = Spec.sgr (shown s) q := by
+  obtain ⟨s', h, e, _⟩ := ss_refines ssCfg_covers s q hq
+  exact ⟨s', h, e⟩
+
+/-- **producers_consumers_agree.** Every sequence in the colon-form range is understood identically by
+    all three consumers; on well-formed styles they return the same style. (For the legacy semicolon
+    forms this holds for parseSGR and the embedded terminal — `producers_consumers_agree_int` — and
+    fails for NewStyledString: finding F118, `Witness/F118.lean`.) -/
+theorem producers_consumers_agree (s : Style) (hs : s.wf) (q : Seq) (hq : emittable q = true) :
+    ∃ s', parseSGR s q = .ok s' ∧ emuSgr s q = .ok s' ∧ ssSeq {} s q = .ok s' ∧
+      shown s' = Spec.sgr (shown s) q := by
+  obtain ⟨s1, h1, h2, e1⟩ := producers_consumers_agree_int s hs q (eml_of_em q hq)
+  obtain ⟨s3, h3, e3, w3⟩ := ss_refines ssCfg_covers s q hq
+  have w1 := int_wf parseCfg parseCfg_covers parseCfg_legacy s hs q (eml_of_em q hq) s1 h1
+  have : s1 = s3 := shown_inj s1 s3 w1 (w3 hs) (e1.trans e3.symm)
+  subst this
+  exact ⟨s1, h1, h2, h3, e1⟩
+
+/-- The statement of `producers_consumers_agree` for the whole range (legacy forms included); false of
+    the current code for NewStyledString (F118). -/
+def producers_consumers_agree_full : Prop :=
+  ∀ (s : Style), s.wf → ∀ q, emittableLegacy q = true →
+    ∃ s', parseSGR s q = .ok s' ∧ emuSgr s q = .ok s' ∧ ssSeq {} s q = .ok s' ∧ shown s' = Spec.sgr (shown s) q
+
+/-- **roundtrip_cells (StyledString.Encode / NewStyledString).** Holds since the `fix:` for F48. -/
+theorem roundtrip_ss {γ : Type} (cs : List (Cell γ)) (hcs : ∀ c ∈ cs, c.st.wf) :
+    ssParse {} (ssEncode cs) = .ok cs :=
+  ss_roundtrip_generic (ssSeq {}) ssDelta (fun s n hs hn => ss_delta_roundtrip ssCfg_covers s n hs hn)
+    cs {} wf_default hcs
+
+/-- **ends_reset (EncodeCells).** After the whole encoded string the parser's style is the zero style. -/
+theorem ends_reset_cells {γ : Type} (legacy : Bool) (cs : List (Cell γ)) (hcs : ∀ c ∈ cs, c.st.wf) :
+    penAfter parseSGR {} (encodeCells legacy cs) = .ok {} ∧ penAfter emuSgr {} (encodeCells legacy cs) = .ok {} :=
+  ⟨ends_reset_generic parseSGR (encodeDelta legacy)
+      (fun s n hs hn => delta_roundtrip parseCfg parseCfg_covers parseCfg_legacy legacy s n hs hn)
+      (fun s => by rw [← simple_zero s]; exact int_empty parseCfg s parseCfg_covers.zero) cs {} wf_default hcs,
+   ends_reset_generic emuSgr (encodeDelta legacy)
+      (fun s n hs hn => delta_roundtrip emuCfg emuCfg_covers emuCfg_legacy legacy s n hs hn)
+      (fun s => by rw [← simple_zero s]; exact int_empty emuCfg s emuCfg_covers.zero) cs {} wf_default hcs⟩
+
+/-- **ends_reset (StyledString.Encode)**: the style `NewStyledString` would hold after the last
+    sequence (it skips a sequence with nothing after it, which is unobservable) is the zero style. -/
+theorem ends_reset_ss {γ : Type} (cs : List (Cell γ)) (hcs : ∀ c ∈ cs, c.st.wf) :
+    penAfter (ssSeq {}) {} (ssEncode cs) = .ok {} :=
+  ends_reset_generic (ssSeq {}) ssDelta (fun s n hs hn => ss_delta_roundtrip ssCfg_covers s n hs hn)
+    (fun _ => rfl) cs {} wf_default hcs
+
+/-- **encoded_shows / ends_reset at the terminal.** A terminal interpreting the encoded string with
+    `Spec.sgr` shows at every grapheme exactly the style of its cell, and its pen is reset afterwards;
+    for `EncodeCells`, `StyledString.Encode`, and a rendered frame under every capability setting. -/
+theorem encoded_shows_cells {γ : Type} (legacy : Bool) (cs : List (Cell γ)) (hcs : ∀ c ∈ cs, c.st.ulStyle ≤ 5) :
+    specRun TStyle.reset (encodeCells legacy cs) = (cs.map (fun c => (c.g, shown c.st)), TStyle.reset) := by
+  have := encoded_shows shown (encodeDelta legacy) (encodeDelta_correct legacy) shown_default cs {} hcs
+  rwa [shown_default] at this
+
+theorem encoded_shows_ss {γ : Type} (cs : List (Cell γ)) (hcs : ∀ c ∈ cs, c.st.ulStyle ≤ 5) :
+    specRun TStyle.reset (ssEncode cs) = (cs.map (fun c => (c.g, shown c.st)), TStyle.reset) := by
+  have := encoded_shows shown ssDelta ssDelta_correct shown_default cs {} hcs
+  rwa [shown_default] at this
+
+theorem render_frame_shows {γ : Type} (rgb su legacy : Bool) (cs : List (Cell γ)) (hcs : ∀ c ∈ cs, c.st.ulStyle ≤ 5) :
+    specRun TStyle.reset (renderFrom rgb su legacy {} cs)
+      = (cs.map (fun c => (c.g, shownCaps rgb su c.st)), TStyle.reset) := by
+  have := render_shows rgb su legacy cs {} hcs
+  rwa [shownCaps_default] at this
+
+/-! ### Extracted shape of the three producers (re-checked against the source on every run) -/
+
+/-- The three producers are the same code up to their colour format constants: in source order
+    `EncodeCells`, `StyledString.Encode` and `render` reference the same 30 SGR constants (the styled
+    string has its own four colour formats), then `sgrReset` (codecs) / the plain underline pair (render).
+    The model's single `attrDelta` / `colourSeq` for all three rests on this. -/
+theorem producers_same_shape :
+    SgrCases.encodeCellsSgr.take 30 = SgrCases.renderSgr.take 30 ∧
+    SgrCases.ssEncodeSgr = SgrCases.encodeCellsSgr.map (fun n =>
+      if n = "fgIndexSet" then "ssFgIndexSet" else if n = "fgRGBSet" then "ssFgRGBSet"
+      else if n = "bgIndexSet" then "ssBgIndexSet" else if n = "bgRGBSet" then "ssBgRGBSet" else n) ∧
+    SgrCases.encodeCellsSgr.drop 30 = ["sgrReset"] ∧
+    SgrCases.renderSgr.drop 30 = ["underlineReset", "underlineSet"] := by decide
+
+/-- No other function of the root package writes SGR sequences (`disableModes` writes `sgrReset` on exit),
+    and only the four colour formats can be rewritten, by `:` → `;` (the model's `legacyT`). -/
+theorem sgr_writers :
+    SgrCases.sgrUsers = ["Encode", "EncodeCells", "applyQuirks", "disableModes", "render"] ∧
+    Sequences.mutableStrings = ["fgIndexSet", "fgRGBSet", "bgIndexSet", "bgRGBSet"] ∧
+    SgrCases.quirkRewrites = [("fgIndexSet", ":", ";"), ("fgRGBSet", ":", ";"), ("bgIndexSet", ":", ";"),
+      ("bgRGBSet", ":", ";")] := by decide
+
+/-- The two `[][]int` consumers have the same labels, arities and `4:n` sub-labels (since the F35 fix). -/
+theorem int_consumers_same_cases :
+    SgrCases.parseSGRLabels = SgrCases.emuSgrLabels ∧ SgrCases.parseSGRArities = SgrCases.emuSgrArities ∧
+    SgrCases.parseSGRUlSubs = SgrCases.emuSgrUlSubs := by decide
+
 end VaxisModel.Props.C18
